@@ -15,6 +15,7 @@
 From Coq Require Import Reals ZArith List.
 From Coquelicot Require Import Coquelicot.
 From PV Require Import Num NumR Model_pathlines Proofs_velocity Proofs_pathlines.
+From PV Require Import Model_pathline_session Proofs_pathline_session.
 From PV.gen Require Import Gen_velocity Gen_velocity_utils.
 Import ListNotations.
 Open Scope R_scope.
@@ -192,3 +193,73 @@ Example C18_nonvacuous :
   good_call toy_gradient [-1] [1] (-1, [1 / 2]) /\ good_call toy_gradient [-1] [1] (-2, [1 / 4]) /\
   rate toy_gradient toy_eigmax [1 / 2] <> rate toy_gradient toy_eigmax [1 / 4].
 Proof. exact event_hypotheses_satisfiable. Qed.
+
+(* --- a SEQUENCE of get_pathline calls in one process (Model_pathline_session.v) ---------- *)
+(* `solve` = the oracle solve_ivp as get_pathline calls it (any function of the solver
+   arguments, may raise); `c` = whatever a module-level store contained before the first call.
+   The current source has no such store (variant NoMemo): the batch of results is the map of
+   the single call, for every history, every initial store, every solver. *)
+Theorem C18_session_is_map :
+  forall (Sol K : Type) (keq : K -> K -> bool) (solve : @sargs NumR -> res (@solution NumR Sol))
+         (c : @store NumR Sol K) (rs : list (@request NumR)),
+  @session NumR Sol K keq solve (NoMemo K) c rs = map (@get_pathline NumR Sol solve) rs.
+Proof. exact (@session_is_map_proof NumR). Qed.
+
+Theorem C18_session_store_untouched :
+  forall (Sol K : Type) (keq : K -> K -> bool) (solve : @sargs NumR -> res (@solution NumR Sol))
+         (c : @store NumR Sol K) (rs : list (@request NumR)),
+  @session_store NumR Sol K keq solve (NoMemo K) c rs = c.
+Proof. exact (@session_store_untouched_proof NumR). Qed.
+
+(* the result of a call is get_pathline of ITS OWN request: it depends neither on the calls
+   before it (h1 / h2), nor on the calls after it (t1 / t2), nor on the initial store *)
+Theorem C18_session_history_independent :
+  forall (Sol K : Type) (keq : K -> K -> bool) (solve : @sargs NumR -> res (@solution NumR Sol))
+         (c1 c2 : @store NumR Sol K) (h1 h2 t1 t2 : list (@request NumR)) (r : @request NumR)
+         (d : res (@pathline NumR Sol)),
+  nth (length h1) (@session NumR Sol K keq solve (NoMemo K) c1 (h1 ++ r :: t1)) d
+  = @get_pathline NumR Sol solve r /\
+  nth (length h1) (@session NumR Sol K keq solve (NoMemo K) c1 (h1 ++ r :: t1)) d
+  = nth (length h2) (@session NumR Sol K keq solve (NoMemo K) c2 (h2 ++ r :: t2)) d.
+Proof. exact (@session_history_independent_proof NumR). Qed.
+
+(* a memoizing get_pathline is invisible as soon as its key determines what solve_ivp returns
+   (regular_steps need not be part of the key: it is applied after the look-up) *)
+Theorem C18_session_memo_sound :
+  forall (Sol K : Type) (keq : K -> K -> bool) (solve : @sargs NumR -> res (@solution NumR Sol))
+         (key : @sargs NumR -> K),
+  (forall a b, keq a b = true <-> a = b) ->
+  (forall a b, key a = key b -> solve a = solve b) ->
+  forall (rs : list (@request NumR)) (c : @store NumR Sol K),
+  @consistent NumR Sol K keq solve key c ->
+  @session NumR Sol K keq solve (Memo K key) c rs = map (@get_pathline NumR Sol solve) rs.
+Proof. exact (@memo_sound_proof NumR). Qed.
+
+(* ... and visible otherwise: if two requests share a key (e.g. id() of callables whose
+   addresses have been recycled) but not their pathline, the second call of the history
+   [r1; r2] returns the pathline of r1, whereas the current source returns that of r2 *)
+Theorem C18_session_stale_memo_refuted :
+  forall (Sol K : Type) (keq : K -> K -> bool) (solve : @sargs NumR -> res (@solution NumR Sol))
+         (key : @sargs NumR -> K),
+  (forall a b, keq a b = true <-> a = b) ->
+  forall (a1 a2 : @sargs NumR) (st1 st2 : option nat) (s1 : @solution NumR Sol)
+         (d : res (@pathline NumR Sol)),
+  key a1 = key a2 -> solve a1 = Ok s1 ->
+  @get_pathline NumR Sol solve (a2, st2) <> Ok (@post NumR Sol s1 st2) ->
+  nth 1 (@session NumR Sol K keq solve (Memo K key) [] [(a1, st1); (a2, st2)]) d
+  = Ok (@post NumR Sol s1 st2) /\
+  nth 1 (@session NumR Sol K keq solve (Memo K key) [] [(a1, st1); (a2, st2)]) d
+  <> @get_pathline NumR Sol solve (a2, st2) /\
+  nth 1 (@session NumR Sol K keq solve (NoMemo K) [] [(a1, st1); (a2, st2)]) d
+  = @get_pathline NumR Sol solve (a2, st2).
+Proof. exact (@memo_stale_proof NumR). Qed.
+
+(* non-vacuity: both sets of hypotheses are satisfiable (a plate-speed sweep at a fixed end
+   point with a key that forgets the speed; a key that determines the solution) *)
+Example C18_session_nonvacuous :
+  (toy_key (toy_args 1) = toy_key (toy_args 2) /\
+   toy_solve (toy_args 1) = Ok ([0; -1], tt) /\
+   @get_pathline NumR unit toy_solve (toy_args 2, None) <> Ok (@post NumR unit ([0; -1], tt) None)) /\
+  ((forall a b, Z.eqb a b = true <-> a = b) /\
+   (forall a b, toy_key a = toy_key b -> toy_solve_flow a = toy_solve_flow b)).
+Proof. exact session_hypotheses_satisfiable. Qed.
